@@ -5,9 +5,12 @@ import PytezosModel.Props.C12
 #print axioms C12.ofPy_toPy_key_partial
 #print axioms C12.toPy_injective_partial
 #print axioms C12.field_names_unique
+#print axioms C12.layout_names_unique
+#print axioms C12.field_names_unchanged_without_collision
 #print axioms C12.layout_stable
 #print axioms C12.encode_decode_inverse
 #print axioms C12.option_option_counterexample
-#print axioms C12.name_collision_counterexample
-#print axioms C12.name_collision_or_counterexample
+#print axioms C12.name_collision_repaired
+#print axioms C12.name_collision_later_repaired
+#print axioms C12.name_collision_or_repaired
 #print axioms C12.unhashable_unit_counterexample
